@@ -93,6 +93,12 @@ func commitReached(n, k int, shape string) bool {
 			}
 			endorsers = append(endorsers, es)
 		}
+	case "self": // k participants INCLUDING the proposer, which commits its own proposal (informational, see notes/built/C42.md)
+		for i := 0; i < k; i++ {
+			committers = append(committers, uint32(1+i))
+			proposers = append(proposers, 1)
+			endorsers = append(endorsers, nil)
+		}
 	case "two":
 		for i := 0; i < k-1; i++ {
 			committers = append(committers, uint32(3+i))
@@ -268,6 +274,16 @@ func thresholds(commitFull, govSeqMax, govInjMax, ledgerSolo, ledgerVbft int, pa
 				t.AtOK = commitReached(r.N, k, shape)
 				if k > 1 {
 					t.Below = commitReached(r.N, k-1, shape)
+				}
+				local = append(local, t)
+			}
+			if r.N <= 16 {
+				t := tres{Site: "commit-info", N: r.N, Expect: r.Bft, Least: -1, Shape: "self", AtOK: true}
+				for c := 1; c <= r.N; c++ {
+					if commitReached(r.N, c, "self") {
+						t.Least = c
+						break
+					}
 				}
 				local = append(local, t)
 			}
